@@ -307,6 +307,58 @@ func (g *Gen) queryRels(fi int) [][2]int64 {
 	return out
 }
 
+// matchingHandles evaluates a filter (plus per-call relation targets) over the alive handles
+// using only read accessors, so that probing does not disturb the world (no query, no lock).
+func (g *Gen) matchingHandles(fi int, brels [][2]int64) []int {
+	f := g.S.Filters[fi]
+	u := g.S.W.Unsafe()
+	var out []int
+	for _, h := range g.aliveHandles() {
+		have := g.compsOf(h)
+		ok := true
+		for _, c := range f.ids {
+			if !contains(have, c) {
+				ok = false
+			}
+		}
+		for _, c := range f.without {
+			if contains(have, c) {
+				ok = false
+			}
+		}
+		if f.excl && len(have) != len(f.ids) {
+			ok = false
+		}
+		for _, r := range append(append([][2]int64{}, f.rels...), brels...) {
+			if !contains(have, int(r[0])) || u.GetRelation(g.S.Issued[h], g.S.IDs[r[0]]) != g.S.handle(r[1]) {
+				ok = false
+			}
+		}
+		if ok {
+			out = append(out, h)
+		}
+	}
+	return out
+}
+
+// batchSafe: every selected entity lacks all of add and has all of rem.
+func (g *Gen) batchSafe(fi int, brels [][2]int64, add, rem []int) bool {
+	for _, h := range g.matchingHandles(fi, brels) {
+		have := g.compsOf(h)
+		for _, c := range add {
+			if contains(have, c) {
+				return false
+			}
+		}
+		for _, c := range rem {
+			if !contains(have, c) {
+				return false
+			}
+		}
+	}
+	return true
+}
+
 func (g *Gen) menuFor(pred func(codes []int) bool) [][]int {
 	var out [][]int
 	for _, m := range MapperMenu {
@@ -351,6 +403,16 @@ func (g *Gen) NextOp() []int64 {
 	total := 0
 	for _, k := range kinds {
 		total += g.St.Weights[k]
+	}
+	if g.S.W.IsLocked() && len(g.openQueries) > 0 && g.R.Chance(30) {
+		if g.R.Chance(60) {
+			if l := g.build("queryclose"); l != nil {
+				return l
+			}
+		}
+		if l := g.build("querynext"); l != nil {
+			return l
+		}
 	}
 	for tries := 0; tries < 50; tries++ {
 		x := g.R.Intn(total)
@@ -754,6 +816,9 @@ func (g *Gen) build(kind string) []int64 {
 				return nil
 			}
 			add := g.compsOfCodes(menu[g.R.Intn(len(menu))])
+			if !g.batchSafe(fi, brels, add, nil) && !g.R.Chance(g.St.Invalid) {
+				return nil
+			}
 			return cat([]int64{31, int64(fi)}, encPairs(brels), encList(add), encList(nil), encPairs(g.relsFor(add, inv)), encPairs(g.valsFor(add)))
 		case 1: // remove components required by the filter
 			menu := g.menuFor(func(codes []int) bool {
@@ -793,6 +858,9 @@ func (g *Gen) build(kind string) []int64 {
 			x := cands[g.R.Intn(len(cands))]
 			add := g.compsOfCodes(x[0])
 			rem := g.compsOfCodes(x[1])
+			if !g.batchSafe(fi, brels, add, rem) && !g.R.Chance(g.St.Invalid) {
+				return nil
+			}
 			return cat([]int64{31, int64(fi)}, encPairs(brels), encList(add), encList(rem), encPairs(g.relsFor(add, inv)), encPairs(g.valsFor(add)))
 		}
 	case "setrelbatch":
